@@ -272,6 +272,25 @@ func GenFieldData(rng *Rand, pf *ref.PField, fd ref.FieldDef, arch byte, o *GenO
 	pb := ref.BaseTypes[pf.Base]
 	if pb.Code == 0x07 && pf.Kind == ref.KNative {
 		if !pf.Array {
+			if keep := int(pf.Length) - 1; size > int(pf.Length) && keep >= 4 && rng.Chance(1, 3) {
+				// longer than the profile's size for this field, valid UTF-8, with a multi-byte
+				// character lying across the place where an encoder has to cut (every alignment:
+				// one, two or three of its bytes before the cut)
+				ch := []string{"\u00e9", "\u65e5", "\U0001F600", "\U00010348"}[rng.Intn(4)]
+				k := 1 + rng.Intn(len(ch)-1)
+				b := make([]byte, 0, size)
+				for len(b) < keep-k {
+					b = append(b, 'a'+byte(rng.Intn(26)))
+				}
+				b = append(b, ch...)
+				for len(b) < size-1 && rng.Chance(5, 6) {
+					b = append(b, 'A'+byte(rng.Intn(26)))
+				}
+				if len(b) <= size {
+					copy(out, b)
+					return out
+				}
+			}
 			switch rng.Intn(6) {
 			case 0: // empty
 			case 1: // fills the field, unterminated
